@@ -2,5 +2,6 @@
 EXTENDS XParams, Json
 FamAll == {"EOF", "ComplexEOF", "HilbertEOF", "ExtendedEOF", "SparsePCA", "POP", "OPA", "MCA", "CPCCA", "CCA", "RDA"}
 FamQ == {"EOF", "ComplexEOF", "POP", "OPA", "MCA", "CPCCA", "HilbertEOF"}
-Emit == phase = "done" => PrintT(<<"@@", ToJson([fam |-> fam, fault |-> fault, verdict |-> verdict])>>)
+CtxAll == {"default", "plain", "std"}
+Emit == phase = "done" => PrintT(<<"@@", ToJson([fam |-> fam, fault |-> fault, ctx |-> ctx, verdict |-> verdict])>>)
 =============================================================================
